@@ -66,7 +66,15 @@ func Run(c *hx.Ctx) error {
 	}
 	// the server lives under the scratch directory of ./check (VERIF_SCRATCH, in /var/tmp)
 	tStart := time.Now()
-	srv, err := startServer(filepath.Join(out, "srv"))
+	// quick tier: the server inside this process; thorough: a ts-server binary built from the tree
+	mode := c.Arg("server", map[bool]string{true: "proc", false: "inproc"}[c.Tier == "thorough"])
+	var srv *ogServer
+	if mode == "inproc" {
+		srv, err = startInProc(filepath.Join(out, "srv"))
+	} else {
+		srv, err = startServer(filepath.Join(out, "srv"))
+	}
+	c.Stats.Notes = append(c.Stats.Notes, "openGemini route: "+map[string]string{"inproc": "single-node server opened inside the harness process (as app/ts-server/main.go does), HTTP over loopback", "proc": "ts-server binary built from the tree, HTTP"}[mode])
 	if os.Getenv("C18_VERBOSE") != "" {
 		fmt.Fprintf(os.Stderr, "TIMING server build+start %v\n", time.Since(tStart))
 	}
